@@ -801,8 +801,16 @@ func (e *Engine) checkRequiresB(st *State, fr *Frame, ct *Contract, fn *ssa.Func
 		g, err := e.EvalBool(env, cl.E)
 		if err != nil {
 			if len(args) > 0 && isInterface(args[0].T) {
-				// call through an interface: the precondition speaks about the concrete receiver, which is not known here
-				e.warn("precondition %s of %s not checked at an interface call site (assumed)", cl.Label, ct.Func)
+				// call through an interface: conjuncts that speak about the concrete receiver cannot be evaluated here
+				// (assumed, and reported); every other conjunct is an obligation of the call site like any precondition
+				for i, cj := range splitConj(cl.E) {
+					g, err := e.EvalBool(env, cj)
+					if err != nil {
+						e.warn("precondition %s of %s: conjunct %q not checked at an interface call site (assumed)", cl.Label, ct.Func, exprText(cj))
+						continue
+					}
+					e.oblige(st, "pre", fmt.Sprintf("%s.%s#%d", simpleName(ct.Func), cl.Label, i+1), g, cl.Tags, pos)
+				}
 				continue
 			}
 			e.specError(fr, "requires of %s: %v", ct.Func, err)
@@ -1942,4 +1950,47 @@ func (e *Engine) dropRangeIntVars(st *State, fr *Frame, head *ssa.BasicBlock) {
 			}
 		}
 	}
+}
+
+// splitConj returns the top-level conjuncts of a specification expression.
+func splitConj(x *Expr) []*Expr {
+	if x != nil && x.Op == "bin" && x.Name == "&&" && len(x.Args) == 2 {
+		return append(splitConj(x.Args[0]), splitConj(x.Args[1])...)
+	}
+	return []*Expr{x}
+}
+
+// exprText renders a specification expression for messages.
+func exprText(x *Expr) string {
+	if x == nil {
+		return ""
+	}
+	if x.Src != "" {
+		return strings.TrimSpace(x.Src)
+	}
+	switch x.Op {
+	case "ident", "num", "str", "type", "sitevar":
+		return x.Name
+	case "bin":
+		if len(x.Args) == 2 {
+			return exprText(x.Args[0]) + " " + x.Name + " " + exprText(x.Args[1])
+		}
+	case "un":
+		if len(x.Args) == 1 {
+			return x.Name + exprText(x.Args[0])
+		}
+	case "field":
+		if len(x.Args) == 1 {
+			return exprText(x.Args[0]) + "." + x.Name
+		}
+	case "index":
+		if len(x.Args) == 2 {
+			return exprText(x.Args[0]) + "[" + exprText(x.Args[1]) + "]"
+		}
+	}
+	parts := make([]string, len(x.Args))
+	for i, a := range x.Args {
+		parts[i] = exprText(a)
+	}
+	return x.Name + "(" + strings.Join(parts, ", ") + ")"
 }
